@@ -20,7 +20,7 @@ ASSUMPTIONS.append('reconfiguration while running / re-entrant next hop (oracle-
                    'packets - the serialisation time is read with the rate the port has when the transmission starts (max(arrival, previous departure)), the tail-drop rule '
                    'with the limit at the arrival (clause instances in the very instant of a change are not judged); the next hop offers a packet to the port again from inside '
                    'its own put(): at that instant the packet just handed on is no longer held, for the byte-limit rule and for the advertised occupancy `byte_size` alike')
-EXTRA_MODULES = ('OnlVerif.Props.C09K',)
+EXTRA_MODULES = ('OnlVerif.Props.C09K', 'OnlVerif.Props.C09K2')
 TRUSTED_EXTRA = ['the kernel guarantees (G1-G3) that make `tick` admissible only at quiescence are theorems of model K (C01), assumed for the device LTS',
                  'py2lean/elem.py + elements.py (typed AST-subset translator; hand-written field schema of Port / REDPort objects, declared effects '
                  '`self.store.put(packet)`, `packet.perhop_time[self.element_id] = self.env.now`, `self.out.put(packet)`); the bridge theorems '
@@ -555,6 +555,330 @@ def run_portk(cases):
     return dis, orc, nontriv
 
 
+# ---- generator -> REDPort -> sink as processes on the kernel MODEL (lean/OnlVerif/Net/REDOnK.lean, driver mode `redk`) ----
+
+ASSUMPTIONS.append('redk leg (DistPacketGenerator -> REDPort -> PacketSink on the real kernel vs the one program of the kernel model in Net/REDOnK.lean): '
+                   '`arrival_dist` / `size_dist` are scripted (they pop the next entry of a gap / size list of equal length), `random.uniform` is replaced for the '
+                   'duration of the run by a function that pops the next entry of a draw list (at least one entry per packet) and records it; when the gap script is '
+                   'dry `arrival_dist` raises a private exception, the generator process fails, `env.run()` raises it and the harness calls `env.run()` again so that '
+                   'the port finishes its transmissions (the model\'s generator simply returns there; both are reported as RET); two taps sit on the `out` links '
+                   '(generator -> tap -> REDPort.put, Port.run -> tap -> PacketSink.put): they read `env.now`, `port.byte_size` / `len(port.store.items)` before the put, '
+                   '`port.average_queue_size` / `packets_dropped` after it, and the last entries of `sink.arrivals[flow]` / `sink.waits[flow]`; one generator, one flow, '
+                   'element_id of the port empty, non-negative gaps; nothing is claimed about the distribution of the draws')
+
+_REDK = {'hist': collections.Counter()}
+
+
+class _ScriptDry(Exception):
+    """the scripted arrival distribution of a redk case has no entry left"""
+
+
+def gen_redk(rng, cid):
+    """0-14 packets through generator -> REDPort -> sink: small weight factors so that the average moves, thresholds on the scale of
+    the queue figure (packets waiting / bytes held) so that it crosses min_th, max_th and qlimit, slow rates and bursts so that queues
+    build, rate 8 with small sizes and whole gaps so that arrivals hit departure instants, draws on the region boundaries"""
+    rate = rng.choice([0.0, 8.0, 8.0, 8, 8.0, 64.0, 3.0, 100.0, 1e6, 0.5, 1.0])
+    pool = [1, 2, 3, 5, 10] if rate == 8 else [10, 50, 60, 100, 200, 1500]
+    gpool = [0, 0, 0, 1, 1, 2, 3, 5, 10] if rate == 8 else [0, 0, 0, 1, 1, 2, 3, 5, 10, 12.5, 0.5, round(rng.random() * 30, 3)]
+    n = rng.randint(0, 14)
+    if rng.random() < 0.3:
+        one = rng.choice(pool)
+        sizes = [one] * n
+    else:
+        sizes = [rng.choice(pool) for _ in range(n)]
+    gaps = []
+    while len(gaps) < n:
+        if rng.random() < 0.25:
+            gaps += [rng.choice(gpool)] + [0] * rng.randint(1, 5)          # a burst
+        else:
+            gaps.append(rng.choice(gpool))
+    gaps = gaps[:n]
+    lb = rng.random() < 0.45
+    unit = (rng.choice([1, 2, 3, 5]) if rate == 8 else rng.choice([10, 50, 100, 200])) if lb else 1
+    min_th = rng.choice([0, 0, 1, 1, 2, 3]) * unit
+    max_th = min_th + rng.choice([1, 2, 2, 4]) * unit
+    qlimit = max_th + rng.choice([0, 1, 1, 3, 6]) * unit
+    x = rng.random()
+    if x < 0.05:
+        min_th, max_th = max_th + 1, min_th                                 # thresholds the wrong way round (never equal)
+    elif x < 0.10:
+        qlimit = max(0, min_th - unit)                                      # the hard limit below the thresholds
+    max_p = rng.choice([0.1, 0.5, 0.5, 1.0, 0.02, 0.0])
+    w = rng.choice([0, 0, 1, 1, 2, 2, 3, 4, 9])
+    us = []
+    for _ in range(n + rng.randint(0, 2)):
+        us.append(rng.choice([0.0, 1.0, max_p, max_p, rng.random(), rng.random(), rng.random() * max_p, 0.01, 0.25]))
+    idl = rng.choice([0, 0.5, 1, 2.75])
+    x = rng.random()
+    if x < 0.55 or n == 0:
+        fin = None
+    elif x < 0.65:
+        fin = 0
+    else:
+        t, inst = 0 + idl, []
+        for g in gaps:
+            t = t + g
+            inst.append(t)
+        k = rng.randrange(n)
+        fin = rng.choice([inst[k], inst[k], inst[k] + 0.25, round(rng.random() * (inst[-1] + 1), 3)])
+    return {'cid': f'r{cid}', 'redk': True, 'rate': rate, 'qlimit': qlimit, 'max_th': max_th, 'min_th': min_th, 'max_p': max_p, 'w': w,
+            'limit_bytes': lb, 'initial_delay': idl, 'finish': fin, 'flow': rng.choice([0, 0, 1, 7]), 'gaps': gaps, 'sizes': sizes, 'us': us}
+
+
+def redk_text(c):
+    fin = 'inf' if c['finish'] is None else str(bits(c['finish']))
+    return ([f"CASE {c['cid']} {bits(c['rate'])} {c['qlimit']} {bits(c['max_th'])} {bits(c['min_th'])} {bits(c['max_p'])} {c['w']} "
+             f"{1 if c['limit_bytes'] else 0} {bits(c['initial_delay'])} {fin} {c['flow']}"] +
+            [f'g {bits(g)} {z}' for g, z in zip(c['gaps'], c['sizes'])] + [f'u {bits(u)}' for u in c['us']] + ['END'])
+
+
+def redk_impl(c):
+    """the real DistPacketGenerator, REDPort and PacketSink on the real kernel, public API only, two taps on the `out` links; the
+    lines the driver prints, plus before every `gen` line a line `cur <queue figure read before the put> <packet.size>` for the
+    oracle (left out of the comparison with the model)"""
+    from onl.packet.dist_generator import DistPacketGenerator
+    from onl.packet.sink import PacketSink
+    env = Environment()
+    flow = c['flow']
+    gaps, sizes, us = list(c['gaps']), list(c['sizes']), list(c['us'])
+    lines, taken = [], []
+
+    def arrival_dist():
+        if not gaps:
+            raise _ScriptDry()
+        return gaps.pop(0)
+
+    def size_dist():
+        return sizes.pop(0)
+
+    def uniform(a, b):
+        u = us.pop(0)
+        taken.append(u)
+        return u
+
+    port = REDPort(env, c['rate'], c['max_th'], c['min_th'], c['max_p'], '', c['qlimit'], weight_factor=c['w'], limit_bytes=c['limit_bytes'])
+    sink = PacketSink(env)
+    gen = DistPacketGenerator(env, 'src', arrival_dist, size_dist, initial_delay=c['initial_delay'],
+                              finish=INF if c['finish'] is None else c['finish'], flow_id=flow, rec_flow=True)
+
+    class Tap1:
+        def put(self, packet):
+            cur = port.byte_size if c['limit_bytes'] else len(port.store.items)
+            lines.append(f'cur {cur} {packet.size}')
+            lines.append(f'gen {packet.packet_id} {bits(env.now)}')
+            d0, k0 = port.packets_dropped, len(taken)
+            port.put(packet)
+            lines.append(f'avg {bits(float(port.average_queue_size))} {bits(env.now)}')
+            if len(taken) > k0:
+                lines.append(f'draw {bits(taken[-1])}')
+            if port.packets_dropped > d0:
+                lines.append(f'drop {packet.packet_id} {bits(env.now)}')
+
+    class Tap2:
+        def put(self, packet):
+            lines.append(f'out {packet.packet_id} {bits(env.now)}')
+            sink.put(packet)
+            lines.append(f'sink {packet.packet_id} {bits(sink.arrivals[flow][-1])} {bits(sink.waits[flow][-1])}')
+
+    gen.out = Tap1()
+    port.out = Tap2()
+    old = random.uniform
+    random.uniform = uniform
+    try:
+        with quiet():
+            try:
+                env.run()
+            except _ScriptDry:
+                env.run()       # the generator is gone (its script is dry); the port still has events
+        tag = 'RET'
+    except BaseException as x:
+        tag = f'RAISED {type(x).__name__}'
+    finally:
+        random.uniform = old
+    return ([tag] + lines +
+            [f'cells bs={port.byte_size} rc={port.packets_received} dr={port.packets_dropped} busy={port.busy} bsz={port.busy_packet_size} '
+             f'avg={bits(float(port.average_queue_size))} scnt={sink.packets_received[flow]} sbytes={sink.bytes_received[flow]}', f'now {bits(env.now)}'])
+
+
+def redk_region(c, avg):
+    """which branch of REDPort.put an average falls into"""
+    if avg >= c['qlimit']:
+        return 'qlimit'
+    if avg >= c['max_th']:
+        return 'max'
+    if avg >= c['min_th']:
+        return 'min'
+    return 'below'
+
+
+def redk_parse(lines):
+    """arrival records, out records and sink records of a redk trace, in order"""
+    from vlib.util import unbits
+    recs, outs, sinks, seq = [], [], [], []
+    for l in lines:
+        w = l.split()
+        if w[0] == 'cur':
+            recs.append({'cur': int(w[1]), 'size': int(w[2]), 'id': None, 't': None, 'avg': None, 'draw': None, 'drop': False})
+        elif w[0] in ('gen', 'avg', 'draw', 'drop'):
+            if not recs:
+                recs.append({'cur': None, 'size': None, 'id': None, 't': None, 'avg': None, 'draw': None, 'drop': False})
+            r = recs[-1]
+            if w[0] == 'gen':
+                r['id'], r['t'] = int(w[1]), unbits(int(w[2]))
+                seq.append(('gen', r))
+            elif w[0] == 'avg':
+                r['avg'] = unbits(int(w[1]))
+            elif w[0] == 'draw':
+                r['draw'] = unbits(int(w[1]))
+            else:
+                r['drop'] = True
+        elif w[0] == 'out':
+            outs.append((int(w[1]), unbits(int(w[2]))))
+            seq.append(('out', outs[-1]))
+        elif w[0] == 'sink':
+            sinks.append((int(w[1]), unbits(int(w[2])), unbits(int(w[3]))))
+    return recs, outs, sinks, seq
+
+
+def redk_oracle(c, lines):
+    """direct oracle over the implementation's own lines (with the `cur` lines): (i) the generator law, (ii) the RED rule of every put,
+    (iii) the sink's records and counters, FIFO / nothing lost / the departure recurrence of the inherited Port.run"""
+    if lines[0] != 'RET':
+        return [{'what': f'the run ended with {lines[0]}', 'signature': 'redk-raised'}]
+    fails = []
+
+    def fail(what, sig):
+        fails.append({'what': what, 'signature': sig})
+    recs, outs, sinks, seq = redk_parse(lines)
+    cells = dict(kv.split('=') for kv in lines[-2].split()[1:])
+    fin = INF if c['finish'] is None else c['finish']
+    # (i) packet n has id n and the n-th size, leaves at initial_delay + the running sum of the gaps; none once now >= finish at the loop test
+    t, want = 0 + c['initial_delay'], []
+    for k, g in enumerate(c['gaps']):
+        if not t < fin:
+            break
+        t = t + g
+        want.append((k + 1, t, c['sizes'][k]))
+    got = [(r['id'], r['t'], r['size']) for r in recs]
+    if got != want:
+        k = next((k for k in range(max(len(got), len(want))) if k >= len(got) or k >= len(want) or got[k] != want[k]), 0)
+        fail(f'generator: emission {k} is (id, instant, size) = {got[k] if k < len(got) else None}, the law (initial_delay {c["initial_delay"]}, '
+             f'finish {fin}, scripts) gives {want[k] if k < len(want) else None}; {len(got)} emitted, {len(want)} expected', 'redk-generator-law')
+        return fails
+    # (ii) the RED rule: the average, the draw (consumed iff in a random region, in script order), the decision
+    alpha = 2 ** (-c['w'])
+    prev, nd, held = 0, 0, 0
+    size_of = {r['id']: r['size'] for r in recs}
+    for kind, x in seq:
+        if kind == 'out':
+            held -= size_of.get(x[0], 0)
+            continue
+        r = x
+        if c['limit_bytes'] and r['cur'] != held:
+            fail(f'packet {r["id"]} arrived with byte_size = {r["cur"]}; accepted minus handed on is {held} bytes', 'redk-bytes-held')
+            break
+        avg = prev * (1 - alpha) + r['cur'] * alpha
+        if r['avg'] is None or float(avg) != r['avg']:
+            fail(f'packet {r["id"]}: average_queue_size after the put is {r["avg"]!r}; {prev!r} * (1 - {alpha}) + {r["cur"]} * {alpha} = {avg!r}', 'redk-average')
+            break
+        prev = avg
+        reg = redk_region(c, avg)
+        needs = reg in ('max', 'min')
+        if needs != (r['draw'] is not None):
+            fail(f'packet {r["id"]}: average {avg!r} (min_th {c["min_th"]}, max_th {c["max_th"]}, qlimit {c["qlimit"]}) is in region `{reg}`: '
+                 f'random.uniform was {"not " if r["draw"] is None else ""}called', 'redk-draw-consumed')
+            break
+        if needs:
+            if nd >= len(c['us']) or r['draw'] != c['us'][nd]:
+                fail(f'packet {r["id"]}: the draw recorded {r["draw"]!r} is not entry {nd} of the script', 'redk-draw-order')
+                break
+            nd += 1
+        u = r['draw']
+        wantdrop = reg == 'qlimit' or (reg == 'max' and u <= c['max_p']) or \
+            (reg == 'min' and u <= (avg - c['min_th']) / (c['max_th'] - c['min_th']) * c['max_p'])
+        if wantdrop != r['drop']:
+            fail(f'RED: packet {r["id"]}, average {avg!r}, thresholds min {c["min_th"]} max {c["max_th"]} qlimit {c["qlimit"]}, max_p {c["max_p"]}, '
+                 f'draw {u!r} (region `{reg}`): packet was {"dropped" if r["drop"] else "accepted"}', 'redk-region')
+            break
+        if not r['drop']:
+            held += r['size']
+    if fails:
+        return fails
+    # (iii) what left the port is what was accepted, in order, nothing lost; the k-th accepted leaves at max(arrival, previous departure) + 8*size/rate
+    acc = [r for r in recs if not r['drop']]
+    accids = [r['id'] for r in acc]
+    for i, _ in outs:
+        if i not in accids:
+            fail(f'packet {i} was handed to the sink but {"was dropped" if i in size_of else "was never emitted"}', 'redk-out-not-accepted')
+            return fails
+    if [i for i, _ in outs] != accids:
+        fail(f'packets handed on {[i for i, _ in outs][:14]}, packets accepted {accids[:14]} (FIFO, each once, none left behind when the run is over)', 'redk-fifo')
+        return fails
+    prevd = None
+    for r, (i, td) in zip(acc, outs):
+        start = r['t'] if prevd is None or r['t'] > prevd else prevd
+        wantd = start + r['size'] * 8 / c['rate'] if c['rate'] > 0 else start
+        if td != wantd:
+            fail(f'packet {i} (size {r["size"]}) left at {td!r}, expected max(arrival {r["t"]!r}, prev {prevd!r}) + 8*size/rate = {wantd!r}', 'redk-departure-time')
+            break
+        prevd = td
+    # the sink: one record per hand-over, arrival instant = that instant, wait = that instant - the instant the generator created the packet
+    gt = {r['id']: r['t'] for r in recs}
+    wants = [(i, td, td - gt[i]) for i, td in outs]
+    if sinks != wants:
+        k = next((k for k in range(max(len(sinks), len(wants))) if k >= len(sinks) or k >= len(wants) or sinks[k] != wants[k]), 0)
+        fail(f'sink record {k} (id, arrival, wait) = {sinks[k] if k < len(sinks) else None}, hand-over gives {wants[k] if k < len(wants) else None}', 'redk-sink-record')
+    if int(cells['scnt']) != len(outs) or int(cells['sbytes']) != sum(size_of[i] for i, _ in outs):
+        fail(f'sink counters: packets_received {cells["scnt"]}, bytes_received {cells["sbytes"]}; {len(outs)} packets of '
+             f'{sum(size_of[i] for i, _ in outs)} bytes were handed over', 'redk-sink-counters')
+    if int(cells['rc']) != len(recs) or int(cells['dr']) != len(recs) - len(acc) or int(cells['bs']) != 0:
+        fail(f'port counters {lines[-2]}: {len(recs)} packets offered, {len(recs) - len(acc)} refused, nothing held', 'redk-counters')
+    return fails
+
+
+def run_redk(cases):
+    text, impl = [], {}
+    for c in cases:
+        impl[c['cid']] = redk_impl(c)
+        text += redk_text(c)
+    model = split_cases(run_driver('redk', '\n'.join(text) + '\n')) if cases else {}
+    dis, orc, nontriv = [], [], 0
+    hist, seen = _REDK['hist'], set()
+    hist.clear()
+    for c in cases:
+        full = impl[c['cid']]
+        a, b = [l for l in full if not l.startswith('cur ')], model.get(c['cid'])
+        if a != b:
+            i = next((i for i in range(max(len(a), len(b or []))) if i >= len(a) or not b or i >= len(b) or a[i] != b[i]), 0)
+            dis.append({'case': c, 'detail': f'redk line {i}: impl `{a[i] if i < len(a) else None}` model `{b[i] if b and i < len(b) else None}`',
+                        'impl': a[:300], 'model': (b or [])[:300]})
+        for f in redk_oracle(c, full):
+            f['case'] = c; f['trace'] = full[:300]
+            orc.append(f)
+        recs, outs, _, _ = redk_parse(full)
+        regs = [(redk_region(c, r['avg']), r) for r in recs if r['avg'] is not None]
+        for reg in ('qlimit', 'max', 'min'):
+            hist[f'cases_with_drop_in_region_{reg}'] += any(g == reg and r['drop'] for g, r in regs)
+            hist[f'cases_reaching_region_{reg}'] += any(g == reg for g, r in regs)
+        hist['cases_with_draw_accepted'] += any(r['draw'] is not None and not r['drop'] for r in recs)
+        hist['cases_finish_reached_mid_run'] += c['finish'] is not None and 0 < len(recs) < len(c['gaps'])
+        hist['cases_finish_nothing_emitted'] += c['finish'] is not None and len(recs) == 0 and len(c['gaps']) > 0
+        hist['cases_limit_bytes_true' if c['limit_bytes'] else 'cases_limit_bytes_false'] += 1
+        hist['cases_with_bursts'] += any(x['t'] == y['t'] for x, y in zip(recs, recs[1:]))
+        hist['cases_with_arrival_at_departure_instant'] += bool({r['t'] for r in recs} & {t for _, t in outs})
+        hist['packets_emitted'] += len(recs)
+        hist['draws_consumed'] += sum(r['draw'] is not None for r in recs)
+        hist['drops'] += sum(r['drop'] for r in recs)
+        hist['ended:' + full[0]] += 1
+        key = json.dumps({k: v for k, v in c.items() if k != 'cid'}, sort_keys=True)
+        if key not in seen and any(r['draw'] is not None or r['drop'] for r in recs):
+            nontriv += 1
+        seen.add(key)
+    return dis, orc, nontriv
+
+# ---- end of the redk leg -----------------------------------------------------------------------------------------------
+
+
 def run(ctx):
     rng = random.Random(f'C09-{ctx.seed}')
     if ctx.replay:
@@ -565,7 +889,10 @@ def run(ctx):
     krng = random.Random(f'C09-portk-{ctx.seed}')
     kcases = [c for c in cases if c.get('portk')] if ctx.replay else \
         [gen_portk(krng, i) for i in range(300 if ctx.quick else 5000)]
-    cases = [c for c in cases if not c.get('portk') and not str(c.get('kind', '')).startswith('dyn:')]
+    rrng = random.Random(f'C09-redk-{ctx.seed}')
+    rcases = [c for c in cases if c.get('redk')] if ctx.replay else \
+        [gen_redk(rrng, i) for i in range(300 if ctx.quick else 5000)]
+    cases = [c for c in cases if not c.get('portk') and not c.get('redk') and not str(c.get('kind', '')).startswith('dyn:')]
     text, runs = [], {}
     for c in cases:
         r = run_impl(c)
@@ -631,6 +958,8 @@ def run(ctx):
                 break
     kdis, korc, knt = run_portk(kcases)
     dis += kdis; orc += korc
+    rdis, rorc, rnt = run_redk(rcases)
+    dis += rdis; orc += rorc
     # oracle-only: rate / qlimit reassigned while the port runs, next hops that offer a packet again from inside their own put()
     dyn = dynport.run_family(ctx, 'C09', ['rate', 'qlimit', 'reflect', 'reflect'], ['rule', 'occupancy', 'service', 'conserve'], 90, 1800)
     orc += dyn['oracle_failures']
@@ -640,6 +969,9 @@ def run(ctx):
            'action_lines_replayed': sum(len(ur.acts) for c in cases for _, _, ur in units(c, runs[c['cid']])), 'cases_executed_a_second_time': again, 'operation_histogram': dict(sorted(hist.items())),
            'portk_program_runs': len(kcases), 'portk_runs_with_bursts_or_drops': knt,
            'portk_rule': 'the Port-on-kernel-model program (PortOnK.lean) run by the driver vs the real Port + source process on the real kernel: how run() ended, every out.put (id, env.now bits), final attributes, final clock',
+           'redk_program_runs': len(rcases), 'redk_runs_nontrivial': rnt,
+           'redk_rule': 'the generator -> REDPort -> sink program on the kernel model (REDOnK.lean) run by the driver vs the real DistPacketGenerator, REDPort and PacketSink on the real kernel (scripted distributions and draws, taps on the two out links): how run() ended, in order every emission, average after the put, draw, drop, hand-over and sink record (ids, env.now / average / draw / wait bits), final attributes, final clock; non-trivial = distinct case in which a draw was consumed or a packet dropped',
+           'redk_histogram': dict(sorted(_REDK['hist'].items())),
            'translated': _PREP.get('translated', []), 'generated_files_rewritten': _PREP.get('rewritten', []),
            'generated_diff_vs_pinned': _PREP.get('diff_vs_pinned', []),
            'bridge_theorems': BRIDGES, 'hand_modelled': HAND_MODELLED,
